@@ -17,9 +17,15 @@ pub fn verif_set_point_hook(hook: Option<Box<dyn Fn(&'static str) + Send>>) {
 
 /// Named point inside a tree operation.  Does nothing unless a callback was installed.
 pub(crate) fn verif_point(name: &'static str) {
-    let hook = VERIF_POINT_HOOK.lock().unwrap();
-    if let Some(hook) = hook.as_ref() {
+    // The callback runs without the lock, so that it may itself run tree operations (which reach
+    // points of their own; those find no callback installed and go on).
+    let hook = VERIF_POINT_HOOK.lock().unwrap().take();
+    if let Some(hook) = hook {
         hook(name);
+        let mut slot = VERIF_POINT_HOOK.lock().unwrap();
+        if slot.is_none() {
+            *slot = Some(hook);
+        }
     }
 }
 
